@@ -114,6 +114,9 @@ Definition field_classes : list (string * string * string * class) := [
   ("retry", "RandomBackoff", "bound", CImmutable []);
   ("retry", "RandomBackoff", "maxDelayMillis", CImmutable []);
   ("retry", "RandomBackoff", "minDelayMillis", CImmutable []);
+  ("retry", "builtBase", "backoff", CImmutable []);
+  ("retry", "builtBase", "parsed", CImmutable []);
+  ("retry", "builtBase", "spec", CImmutable []);
   ("retry", "withJitter", "maxJitterRate", CImmutable []);
   ("retry", "withJitter", "minJitterRate", CImmutable []);
   ("retry", "withLimit", "limit", CImmutable []);
